@@ -6,6 +6,13 @@ verus! {
 
 // @canary-decls
 
+/// `<[u8]>::eq_ignore_ascii_case` (not used by the code under contract; declared so that a change to it fails a clause instead of
+/// leaving the unit undecided): equality of the ASCII-lower-cased byte strings, as an uninterpreted function
+pub uninterp spec fn ascii_lower_bytes(s: Seq<u8>) -> Seq<u8>;
+pub assume_specification[ <[u8]>::eq_ignore_ascii_case ](a: &[u8], b: &[u8]) -> (r: bool)
+    ensures r == (ascii_lower_bytes(a@) == ascii_lower_bytes(b@));
+pub assume_specification[ str::eq_ignore_ascii_case ](a: &str, b: &str) -> (r: bool);
+
 pub struct StdError { pub o: u64 }
 pub struct AmzDate { pub o: u64 }
 pub struct SecretKey { pub o: u64 }
